@@ -462,6 +462,21 @@ func checkC13(c *Ctx) {
 				if len(lf.Path) == 1 && c.R.Chance(1, 8) {
 					m[lf.Path[0]] = map[string]interface{}{"k": 1, "n": map[string]interface{}{"z": 2.5}}
 				}
+				if len(lf.Path) == 1 && c.R.Chance(1, 6) {
+					// containers with awkward contents: long strings, non-finite floats, heterogeneous lists sharing a backing array
+					base := []interface{}{nil, "admin", "dev", 1.5, map[string]interface{}{"deep": strings.Repeat("x", 300)}, true, 7}
+					switch c.R.Intn(4) {
+					case 0:
+						m[lf.Path[0]] = map[string]interface{}{"note": strings.Repeat("long ", 60), "limit": math.Inf(1), "nan": math.NaN(), "l": base[1:4]}
+					case 1:
+						m[lf.Path[0]] = base[:4]
+						m["same_backing_array"] = base[2:6]
+					case 2:
+						m[lf.Path[0]] = []interface{}{nil, lf.Lit.Text, strings.Trim(lf.Lit.Text, "\""), 1, 1.0}
+					default:
+						m[lf.Path[0]] = map[string]interface{}{"a": []interface{}{math.NaN(), strings.Repeat("y", 200)}, "b": map[string]interface{}{"c": map[string]interface{}{"d": strings.Repeat("z", 129)}}}
+					}
+				}
 			}
 		}
 		before := snap(m)
